@@ -190,6 +190,8 @@ func ParseField(v reflect.Value, bytes []byte, params fieldParameters) error {
 				offset := 0
 				// embed choice type
 				if params.tagNumber != nil {
+					// the alternative starts right after the header of the enclosing tag
+					offset += talOff
 					tal, talOff, err = parseTagAndLength(bytes[talOff:])
 					if err != nil {
 						return err
@@ -197,7 +199,6 @@ func ParseField(v reflect.Value, bytes []byte, params fieldParameters) error {
 					if int64(talOff)+tal.len > int64(len(bytes)) {
 						return fmt.Errorf("type value out of range")
 					}
-					offset += talOff
 				}
 
 				for i := 1; i < structType.NumField(); i++ {
